@@ -202,6 +202,7 @@ Theorem D_main r x e : mdom e r ->
   is_derive (path r x e) (r x) (eval (D x e) r) /\ (lconst e = true -> lc r x e).
 Proof.
   assert (E : forall e0, path r x e0 (r x) = eval e0 r) by (intros; apply path_at).
+  unfold lc.
   induction e as [i|q| |a IHa b IHb|a IHa b IHb|a IHa b IHb|a IHa b IHb|a IHa|a IHa n|a IHa|a IHa|a IHa|a IHa|a IHa
                  |y IHy x0 IHx|a IHa c|a IHa|a IHa|a IHa b IHb u IHu v IHv];
     cbn [mdom D lconst]; intros Hd.
@@ -264,7 +265,7 @@ Proof.
     + rewrite sign_eq_m1 by lra. ring.
   - (* Floor *) destruct Hd as [Ha Hn]. destruct (IHa Ha) as [Da La].
     assert (L : lc r x (Floor a)).
-    { destruct Hn as [Hl | Hn].
+    { unfold lc. destruct Hn as [Hl | Hn].
       - apply (lc_un r x a Rfloor (La Hl)).
       - pose proof (derive_cont _ _ _ Da) as Ca.
         assert (Hn' : path r x a (r x) <> Rfloor (path r x a (r x))) by (rewrite E; exact Hn).
@@ -284,3 +285,259 @@ Proof.
       * intros H. apply andb4 in H. destruct H as [_ [_ [_ H4]]].
         generalize (filter_and _ _ Hst (Lv H4)). apply filter_imp. intros t [H1 H2]. now rewrite H1, H2.
 Qed.
+
+Theorem D_correct_m r x e : mdom e r -> is_derive (fun t => eval e (upd r x t)) (r x) (eval (D x e) r).
+Proof. intros H. exact (proj1 (D_main r x e H)). Qed.
+
+Lemma dom_mdom e r : dom e r -> mdom e r.
+Proof. induction e; cbn [dom mdom]; try tauto.
+  intros [Ha [Hb [Hs [Hx Hy]]]]. repeat split; auto. destruct (Rlt_dec _ _); auto. Qed.
+
+Theorem D_correct r x e : dom e r -> is_derive (fun t => eval e (upd r x t)) (r x) (eval (D x e) r).
+Proof. intros H. apply D_correct_m, dom_mdom, H. Qed.
+
+(* the gradient expression has no singular sub-expression on the autograd-safe domain *)
+Theorem dom_D r x e : dom e r -> dom (D x e) r.
+Proof.
+  induction e as [i|q| |a IHa b IHb|a IHa b IHb|a IHa b IHb|a IHa b IHb|a IHa|a IHa n|a IHa|a IHa|a IHa|a IHa|a IHa
+                 |y IHy x0 IHx|a IHa c|a IHa|a IHa|a IHa b IHb u IHu v IHv];
+    cbn [dom D]; intros Hd.
+  - destruct (Nat.eqb i x); exact I.
+  - exact I.
+  - exact I.
+  - destruct Hd. apply dom_sadd; auto.
+  - destruct Hd. apply dom_ssub; auto.
+  - destruct Hd. apply dom_sadd; apply dom_smul; auto.
+  - destruct Hd as [Ha [Hb Hz]]. apply dom_ssub; [apply dom_sdiv; auto|]. apply dom_smul; auto.
+    cbn [dom eval]. split; [exact Ha | split; [split; exact Hb | intros H0; apply Hz; nra]].
+  - apply dom_sneg; auto.
+  - destruct n as [|k]; [exact I|]. apply dom_smul; auto. apply dom_smul; [apply dom_cnat | exact Hd].
+  - destruct Hd as [Ha Hp]. apply dom_sdiv; auto. cbn [dom]. tauto.
+    cbn [eval]. rewrite Q2R_2. pose proof (sqrt_lt_R0 _ Hp). lra.
+  - apply dom_smul; auto.
+  - apply dom_smul; auto.
+  - apply dom_smul; auto.
+  - destruct Hd as [Ha Hp]. apply dom_sdiv; auto. lra.
+  - destruct Hd as [Hy [Hx Hc]]. apply dom_sdiv.
+    + apply dom_ssub; apply dom_smul; auto.
+    + cbn [dom]. tauto.
+    + cbn [eval]. intros H0. destruct Hc; nra.
+  - destruct Hd as [Ha Hp]. apply dom_smul; auto. apply dom_smul; [exact I|]. cbn [dom]. tauto.
+  - destruct Hd as [Ha Hn]. apply dom_site; auto. exact I. left. cbn [eval]. rewrite Q2R_0. auto. apply dom_sneg; auto.
+  - exact I.
+  - destruct Hd as [Ha [Hb [Hs [Hu Hv]]]]. apply dom_site; auto.
+Qed.
+
+Theorem conds_iff r e : List.Forall (holds r) (conds e) <-> dom e r.
+Proof. induction e; cbn [conds dom]; rewrite ?Forall_app, ?Forall_cons_iff, ?Forall_nil_iff; cbn [holds]; tauto. Qed.
+
+(* the gradient (all partial derivatives) of a traced objective *)
+Theorem grad_correct r n e : dom e r ->
+  forall i, (i < n)%nat ->
+    is_derive (fun t => eval e (upd r i t)) (r i) (eval (nth i (grad n e) (Cst 0)) r) /\ dom (nth i (grad n e) (Cst 0)) r.
+Proof. intros Hd i Hi. unfold grad.
+  rewrite (nth_indep _ (Cst 0) (D 0 e)) by (rewrite map_length, seq_length; exact Hi).
+  rewrite (map_nth (fun j => D j e)), seq_nth by exact Hi. cbn. split; [apply D_correct | apply dom_D]; exact Hd. Qed.
+
+(* ================================================================ exact rational evaluation *)
+Lemma Q2R_pow_nat u n : Q2R (Qpow_nat u n) = Q2R u ^ n.
+Proof. induction n; cbn [Qpow_nat pow]; [apply Q2R_1 | rewrite Q2R_mult, IHn; reflexivity]. Qed.
+
+Theorem evalQ_sound e q v : evalQ e q = Some v -> eval e (fun i => Q2R (q i)) = Q2R v.
+Proof. revert v. induction e; cbn [evalQ eval]; intros v0 H; try discriminate.
+  - now inversion H.
+  - now inversion H.
+  - destruct (evalQ e1 q), (evalQ e2 q); try discriminate. cbn in H. inversion H. rewrite Q2R_plus, (IHe1 _ eq_refl), (IHe2 _ eq_refl). reflexivity.
+  - destruct (evalQ e1 q), (evalQ e2 q); try discriminate. cbn in H. inversion H. rewrite Q2R_minus, (IHe1 _ eq_refl), (IHe2 _ eq_refl). reflexivity.
+  - destruct (evalQ e1 q), (evalQ e2 q); try discriminate. cbn in H. inversion H. rewrite Q2R_mult, (IHe1 _ eq_refl), (IHe2 _ eq_refl). reflexivity.
+  - destruct (evalQ e1 q) as [u|], (evalQ e2 q) as [w|]; try discriminate. cbn in H.
+    destruct (Qeq_bool w 0) eqn:Ew; [discriminate|]. inversion H.
+    rewrite Q2R_div, (IHe1 _ eq_refl), (IHe2 _ eq_refl); [reflexivity|].
+    intros Hz. apply Qeq_bool_iff in Hz. congruence.
+  - destruct (evalQ e q); try discriminate. inversion H. rewrite Q2R_opp, (IHe _ eq_refl). reflexivity.
+  - destruct (evalQ e q); try discriminate. inversion H. rewrite Q2R_pow_nat, (IHe _ eq_refl). reflexivity.
+  - destruct (evalQ e1 q) as [u|], (evalQ e2 q) as [w|]; try discriminate.
+    rewrite (IHe1 _ eq_refl), (IHe2 _ eq_refl).
+    destruct (Qlt_le_dec u w) as [Hl | Hl].
+    + apply Qlt_Rlt in Hl. destruct (Rlt_dec (Q2R u) (Q2R w)); [auto | lra].
+    + apply Qle_Rle in Hl. destruct (Rlt_dec (Q2R u) (Q2R w)); [lra | auto].
+Qed.
+
+(* ================================================================ linear propagators: gradient of the quadratic objective *)
+Lemma is_derive_Rsum n (f : nat -> R -> R) (df : nat -> R) x0 :
+  (forall i, (i < n)%nat -> is_derive (f i) x0 (df i)) ->
+  is_derive (fun t => Rsum n (fun i => f i t)) x0 (Rsum n df).
+Proof. induction n as [|k IH]; intros H; cbn [Rsum].
+  - apply (@is_derive_const R_AbsRing R_NormedModule 0 x0).
+  - apply add_case; [apply IH; intros; apply H; lia | apply H; lia]. Qed.
+
+Lemma Rsum_delta n j c : (j < n)%nat -> Rsum n (fun i => if Nat.eqb i j then c else 0) = c.
+Proof. induction n as [|k IH]; intros H; [lia|]. cbn [Rsum]. destruct (Nat.eqb k j) eqn:E.
+  - apply Nat.eqb_eq in E. subst k. rewrite Rsum_zero; [lra|]. intros i Hi.
+    destruct (Nat.eqb i j) eqn:E2; [apply Nat.eqb_eq in E2; lia | reflexivity].
+  - apply Nat.eqb_neq in E. rewrite IH by lia. lra. Qed.
+
+Lemma fst_Csum n f : fst (Csum n f) = Rsum n (fun j => fst (f j)).
+Proof. induction n; cbn [Csum Rsum]; [reflexivity | cbn; now rewrite IHn]. Qed.
+Lemma snd_Csum n f : snd (Csum n f) = Rsum n (fun j => snd (f j)).
+Proof. induction n; cbn [Csum Rsum]; [reflexivity | cbn; now rewrite IHn]. Qed.
+
+Definition obj (m n : nat) (P : cmat) (w : nat -> R) (u : nat -> C) : R := Rsum m (fun k => w k * n2 (fwd n P u k)).
+
+Lemma cupd_same u j : cupd u j (u j) = u.
+Proof. apply functional_extensionality. intros i. unfold cupd. destruct (Nat.eqb i j) eqn:E; [apply Nat.eqb_eq in E; now subst | reflexivity]. Qed.
+
+Lemma fwd_re_derive n P u0 j k (zr zi : R -> R) t0 dr di : (j < n)%nat ->
+  is_derive zr t0 dr -> is_derive zi t0 di ->
+  is_derive (fun t => fst (fwd n P (cupd u0 j (zr t, zi t)) k)) t0 (fst (Cmult (P k j) (dr, di))).
+Proof. intros Hj Hr Hi.
+  apply (is_derive_ext (fun t => Rsum n (fun i => fst (Cmult (P k i) (cupd u0 j (zr t, zi t) i))))).
+  { intros t. unfold fwd. now rewrite fst_Csum. }
+  rewrite <- (Rsum_delta n j (fst (Cmult (P k j) (dr, di))) Hj).
+  apply (is_derive_Rsum n (fun i t => fst (Cmult (P k i) (cupd u0 j (zr t, zi t) i)))).
+  intros i _. unfold cupd. destruct (Nat.eqb i j) eqn:E.
+  - apply Nat.eqb_eq in E. subst i. cbn [Cmult fst snd].
+    evar_last. apply sub_case; apply mul_case; try eassumption; apply (@is_derive_const R_AbsRing R_NormedModule).
+    unfold zero; cbn. ring.
+  - apply (@is_derive_const R_AbsRing R_NormedModule). Qed.
+
+Lemma fwd_im_derive n P u0 j k (zr zi : R -> R) t0 dr di : (j < n)%nat ->
+  is_derive zr t0 dr -> is_derive zi t0 di ->
+  is_derive (fun t => snd (fwd n P (cupd u0 j (zr t, zi t)) k)) t0 (snd (Cmult (P k j) (dr, di))).
+Proof. intros Hj Hr Hi.
+  apply (is_derive_ext (fun t => Rsum n (fun i => snd (Cmult (P k i) (cupd u0 j (zr t, zi t) i))))).
+  { intros t. unfold fwd. now rewrite snd_Csum. }
+  rewrite <- (Rsum_delta n j (snd (Cmult (P k j) (dr, di))) Hj).
+  apply (is_derive_Rsum n (fun i t => snd (Cmult (P k i) (cupd u0 j (zr t, zi t) i)))).
+  intros i _. unfold cupd. destruct (Nat.eqb i j) eqn:E.
+  - apply Nat.eqb_eq in E. subst i. cbn [Cmult fst snd].
+    evar_last. apply add_case; apply mul_case; try eassumption; apply (@is_derive_const R_AbsRing R_NormedModule).
+    unfold zero; cbn. ring.
+  - apply (@is_derive_const R_AbsRing R_NormedModule). Qed.
+
+(* one input component moves along a differentiable curve z(t) = (zr t, zi t) through u0 j *)
+Theorem obj_derive m n P w u0 j (zr zi : R -> R) t0 dr di : (j < n)%nat ->
+  is_derive zr t0 dr -> is_derive zi t0 di -> (zr t0, zi t0) = u0 j ->
+  is_derive (fun t => obj m n P w (cupd u0 j (zr t, zi t))) t0
+            (Rsum m (fun k => w k * (2 * cdot (fwd n P u0 k) (Cmult (P k j) (dr, di))))).
+Proof. intros Hj Hr Hi H0. unfold obj.
+  apply (is_derive_Rsum m (fun k t => w k * n2 (fwd n P (cupd u0 j (zr t, zi t)) k))).
+  intros k _. unfold n2.
+  pose proof (fwd_re_derive n P u0 j k zr zi t0 dr di Hj Hr Hi) as DR.
+  pose proof (fwd_im_derive n P u0 j k zr zi t0 dr di Hj Hr Hi) as DI.
+  evar_last.
+  { apply mul_case; [apply (@is_derive_const R_AbsRing R_NormedModule)|].
+    apply add_case; apply mul_case; eassumption. }
+  cbv beta. rewrite H0, cupd_same. unfold cdot, zero; cbn. ring. Qed.
+
+Lemma polar_upd_phase a phi j t : polar a (upd phi j t) = cupd (polar a phi) j (a j * cos t, a j * sin t).
+Proof. apply functional_extensionality. intros i. unfold polar, upd, cupd.
+  destruct (Nat.eqb i j) eqn:E; [apply Nat.eqb_eq in E; now subst | reflexivity]. Qed.
+Lemma polar_upd_amp a phi j t : polar (upd a j t) phi = cupd (polar a phi) j (t * cos (phi j), t * sin (phi j)).
+Proof. apply functional_extensionality. intros i. unfold polar, upd, cupd.
+  destruct (Nat.eqb i j) eqn:E; [apply Nat.eqb_eq in E; now subst | reflexivity]. Qed.
+
+Theorem phase_grad_correct m n P w a phi j : (j < n)%nat ->
+  is_derive (fun t => objective m n P w a (upd phi j t)) (phi j) (phase_grad m n P w a phi j).
+Proof. intros Hj. unfold objective, phase_grad.
+  apply (is_derive_ext (fun t => obj m n P w (cupd (polar a phi) j (a j * cos t, a j * sin t)))).
+  { intros t. now rewrite polar_upd_phase. }
+  evar_last.
+  { apply (obj_derive m n P w (polar a phi) j (fun t => a j * cos t) (fun t => a j * sin t) (phi j)
+                      (a j * - sin (phi j)) (a j * cos (phi j)) Hj).
+    - evar_last. apply mul_case. apply (@is_derive_const R_AbsRing R_NormedModule). apply is_derive_cos. unfold zero; cbn; ring.
+    - evar_last. apply mul_case. apply (@is_derive_const R_AbsRing R_NormedModule). apply is_derive_sin. unfold zero; cbn; ring.
+    - reflexivity. }
+  apply Rsum_ext. intros k _. unfold cdot, polar, Ci. cbn. ring. Qed.
+
+Theorem amp_grad_correct m n P w a phi j : (j < n)%nat ->
+  is_derive (fun t => objective m n P w (upd a j t) phi) (a j) (amp_grad m n P w a phi j).
+Proof. intros Hj. unfold objective, amp_grad.
+  apply (is_derive_ext (fun t => obj m n P w (cupd (polar a phi) j (t * cos (phi j), t * sin (phi j))))).
+  { intros t. now rewrite polar_upd_amp. }
+  evar_last.
+  { apply (obj_derive m n P w (polar a phi) j (fun t => t * cos (phi j)) (fun t => t * sin (phi j)) (a j)
+                      (cos (phi j)) (sin (phi j)) Hj).
+    - evar_last. apply mul_case. apply is_derive_id. apply (@is_derive_const R_AbsRing R_NormedModule). unfold zero, one; cbn; ring.
+    - evar_last. apply mul_case. apply is_derive_id. apply (@is_derive_const R_AbsRing R_NormedModule). unfold zero, one; cbn; ring.
+    - reflexivity. }
+  reflexivity. Qed.
+
+(* directional derivative of a linear map is the map itself (Jacobian-vector product) *)
+Lemma Csum_axpy n (f g : nat -> C) (t : R) :
+  Csum n (fun j => Cplus (f j) (Cmult (RtoC t) (g j))) = Cplus (Csum n f) (Cmult (RtoC t) (Csum n g)).
+Proof. induction n; cbn [Csum]. - unfold RtoC, Cplus, Cmult; cbn. f_equal; ring.
+  - rewrite IHn. unfold RtoC, Cplus, Cmult; cbn. f_equal; ring. Qed.
+
+Lemma fwd_axpy n P u v t k : fwd n P (caxpy u v t) k = Cplus (fwd n P u k) (Cmult (RtoC t) (fwd n P v k)).
+Proof. unfold fwd, caxpy. rewrite <- Csum_axpy. f_equal. apply functional_extensionality. intros j.
+  unfold RtoC, Cplus, Cmult; cbn. f_equal; ring. Qed.
+
+Theorem jvp_linear n P u v k t0 :
+  is_derive (fun t => fst (fwd n P (caxpy u v t) k)) t0 (fst (fwd n P v k)) /\
+  is_derive (fun t => snd (fwd n P (caxpy u v t) k)) t0 (snd (fwd n P v k)).
+Proof. split.
+  - apply (is_derive_ext (fun t => fst (fwd n P u k) + t * fst (fwd n P v k))).
+    { intros t. rewrite fwd_axpy. unfold RtoC, Cplus, Cmult; cbn. ring. }
+    evar_last. apply add_case. apply (@is_derive_const R_AbsRing R_NormedModule).
+    apply mul_case. apply is_derive_id. apply (@is_derive_const R_AbsRing R_NormedModule). unfold zero, one; cbn; ring.
+  - apply (is_derive_ext (fun t => snd (fwd n P u k) + t * snd (fwd n P v k))).
+    { intros t. rewrite fwd_axpy. unfold RtoC, Cplus, Cmult; cbn. ring. }
+    evar_last. apply add_case. apply (@is_derive_const R_AbsRing R_NormedModule).
+    apply mul_case. apply is_derive_id. apply (@is_derive_const R_AbsRing R_NormedModule). unfold zero, one; cbn; ring.
+Qed.
+
+(* ================================================================ the where / pow nonlinearity of srgb_to_lab and lab_to_srgb *)
+Lemma eval_emax a b r : eval (emax a b) r = Rmax (eval a r) (eval b r).
+Proof. unfold emax. cbn [eval]. unfold Rmax. destruct (Rlt_dec (eval a r) (eval b r)), (Rle_dec (eval a r) (eval b r)); lra. Qed.
+
+(* the repair does not change any value *)
+Theorem wp_fixed_same_value t c k k0 l1 l0 r : eval (wp_fixed t c k k0 l1 l0) r = eval (wp_orig t c k k0 l1 l0) r.
+Proof. unfold wp_fixed, wp_orig. cbn [eval]. destruct (Rlt_dec (Q2R t) (r 0%nat)) as [H|H]; [|reflexivity].
+  unfold emax. cbn [eval]. destruct (Rlt_dec (r 0%nat) (Q2R t)); [lra | reflexivity]. Qed.
+
+(* repaired: autograd-safe at EVERY real input except the threshold itself *)
+Theorem wp_fixed_dom t c k k0 l1 l0 r : 0 < Q2R t -> r 0%nat <> Q2R t -> dom (wp_fixed t c k k0 l1 l0) r.
+Proof. intros Ht Hne. unfold wp_fixed, emax. cbn [dom eval]. unfold strict. cbn [eval].
+  repeat split; auto. destruct (Rlt_dec (r 0%nat) (Q2R t)); lra. Qed.
+
+(* as found: autograd-safe only for positive inputs ... *)
+Theorem wp_orig_partial t c k k0 l1 l0 r : 0 < r 0%nat -> r 0%nat <> Q2R t -> dom (wp_orig t c k k0 l1 l0) r.
+Proof. intros Hp Hne. unfold wp_orig. cbn [dom eval]. unfold strict. cbn [eval]. repeat split; auto. Qed.
+
+Lemma lab_t_pos : 0 < Q2R lab_t. Proof. unfold lab_t, Q2R; cbn. lra. Qed.
+
+(* ... and NOT at black, although the function is differentiable there: the unselected power branch has
+   the singular local derivative (1/3) x^(-2/3) at x = 0, which reverse mode multiplies by 0 *)
+Theorem lab_f_orig_refuted :
+  ~ dom lab_f_orig black /\ ~ dom (D 0 lab_f_orig) black /\
+  mdom lab_f_orig black /\ is_derive (fun t => eval lab_f_orig (upd black 0 t)) 0 (Q2R (841 # 108)).
+Proof. pose proof lab_t_pos as Ht.
+  assert (Hm : mdom lab_f_orig black).
+  { unfold lab_f_orig, wp_orig, black. cbn [mdom eval]. unfold strict. cbn [eval].
+    destruct (Rlt_dec (Q2R lab_t) 0); [lra|]. repeat split; auto. left. lra. }
+  split; [|split; [|split]].
+  - unfold lab_f_orig, wp_orig, black. cbn [dom eval]. intros H. decompose [and] H. lra.
+  - vm_compute D. unfold black. cbn [dom eval]. intros H. decompose [and] H. lra.
+  - exact Hm.
+  - pose proof (D_correct_m black 0%nat lab_f_orig Hm) as H. unfold black at 2 in H.
+    evar_last. exact H. vm_compute D. unfold black. cbn [eval]. destruct (Rlt_dec (Q2R (216 # 24389)) 0); [|reflexivity].
+    unfold Q2R in r; cbn in r. lra. Qed.
+
+Theorem lab_f_fixed_dom r : r 0%nat <> Q2R lab_t -> dom lab_f_fixed r /\ dom (D 0 lab_f_fixed) r /\
+  eval lab_f_fixed r = eval lab_f_orig r.
+Proof. intros H. pose proof (wp_fixed_dom lab_t (1 # 3) 1 0 (841 # 108) (4 # 29) r lab_t_pos H) as Hd.
+  split; [exact Hd | split; [apply dom_D; exact Hd | apply wp_fixed_same_value]]. Qed.
+
+(* ================================================================ side conditions split into thresholds and singularities *)
+Lemma dom_of_split r e :
+  List.Forall (holds r) (filter hard (conds e)) -> List.Forall (holds r) (filter (fun c => negb (hard c)) (conds e)) -> dom e r.
+Proof. intros H1 H2. apply conds_iff. apply Forall_forall. intros c Hc.
+  destruct (hard c) eqn:E.
+  - rewrite Forall_forall in H1. apply H1. apply filter_In. auto.
+  - rewrite Forall_forall in H2. apply H2. apply filter_In. rewrite E. auto. Qed.
+
+Lemma c05_instance : dom lab_f_fixed black /\
+  is_derive (fun t => eval lab_f_fixed (upd black 0 t)) (black 0%nat) (eval (D 0 lab_f_fixed) black).
+Proof. assert (H : black 0%nat <> Q2R lab_t) by (unfold black; pose proof lab_t_pos; lra).
+  split; [exact (proj1 (lab_f_fixed_dom black H)) | apply D_correct; exact (proj1 (lab_f_fixed_dom black H))]. Qed.
